@@ -345,6 +345,21 @@ func c04Pattern(al [][]byte, kind, n int) c04Seq {
 			s[i] = al[(i/8)%k]
 		case 9: // blocks of 3
 			s[i] = al[(i/3)%k]
+		case 10: // bit-packed context, then a group of 8 whose first 7 are equal and whose 8th differs
+			switch (i / 8) % 3 {
+			case 1:
+				s[i] = al[0]
+				if i%8 == 7 {
+					s[i] = al[1%k]
+				}
+			default:
+				s[i] = al[i%2]
+			}
+		case 11: // groups of 8 equal values but one, the odd one at every lane in turn
+			s[i] = al[0]
+			if i%8 == (i/8)%8 {
+				s[i] = al[1%k]
+			}
 		case 6: // long run then one different value at the end
 			s[i] = al[0]
 			if i == n-1 {
@@ -355,7 +370,7 @@ func c04Pattern(al [][]byte, kind, n int) c04Seq {
 	return s
 }
 
-const c04PatternKinds = 10
+const c04PatternKinds = 12
 
 func c04Run(x *engine.X) {
 	pairs := c04Pairs()
@@ -508,7 +523,7 @@ func init() {
 	Register(&engine.Prop{
 		ID:    "C04",
 		Level: "exploration",
-		Rule: "63 (encoding, type) pairs - PLAIN x 8 types, RLE booleans, hybrid RLE/bit-packed levels at widths 1..8 and int32 at widths 0..32, RLE_DICTIONARY index pages, DELTA_BINARY_PACKED int32/int64, DELTA_LENGTH_BYTE_ARRAY, DELTA_BYTE_ARRAY (byte array, flba 4/16), BYTE_STREAM_SPLIT (float, double, int32, int64, flba 4/16) - x {ALL sequences of length <=4 (6 thorough) over 5-6 boundary values; 10 structured patterns x 18 lengths around the 8/32/64/128/256/1024 block boundaries} x 4 destination-buffer histories (+ reuse of a previous call's buffer) x build variants asm / no-AVX2 / purego; " +
+		Rule: "63 (encoding, type) pairs - PLAIN x 8 types, RLE booleans, hybrid RLE/bit-packed levels at widths 1..8 and int32 at widths 0..32, RLE_DICTIONARY index pages, DELTA_BINARY_PACKED int32/int64, DELTA_LENGTH_BYTE_ARRAY, DELTA_BYTE_ARRAY (byte array, flba 4/16), BYTE_STREAM_SPLIT (float, double, int32, int64, flba 4/16) - x {ALL sequences of length <=4 (6 thorough) over 5-6 boundary values; 12 structured patterns x 18 lengths around the 8/32/64/128/256/1024 block boundaries} x 4 destination-buffer histories (+ reuse of a previous call's buffer) x build variants asm / no-AVX2 / purego; " +
 			"non-trivial = >=2 values, distinct by (pair, sequence)",
 		Assumptions: []string{"the independent decoder is pqref (written from Encodings.md); encoded bytes are compared across build variants case by case"},
 		Bound:       func(string) int { return 0 },
